@@ -514,7 +514,7 @@ def fd_analytic_error(case):
         chain, logp, grad = make_chain(case, grad_given=False)
         t = fl(case["t"])
         G = np.asarray(chain.finite_diff(t.copy()), float)
-    want = grad(t) * chain.inv_temp
+    want = grad(t)        # the true gradient of the log-density (C07), whatever the temperature
     return G, want
 
 
@@ -648,7 +648,10 @@ def run_fd(case):
 
 def coq_fd(case, obs):
     pts = C.clist([qv(p) for p in obs["pts"]])
-    return (f"({C.cq(1 / case['T'])}, {C.cq(H_REL)}, {C.cq(H_FLOOR)}, {qv(case['t'])}, {C.cq(case['P'])}, "
+    # the (repaired, D30) code estimates the gradient of the UN-tempered log-density, exactly as a
+    # user-supplied gradient is: the model's finite_diff is therefore used at inv_temp = 1, for
+    # every chain temperature
+    return (f"({C.cq(1)}, {C.cq(H_REL)}, {C.cq(H_FLOOR)}, {qv(case['t'])}, {C.cq(case['P'])}, "
             f"{qv(case['Ps'])}, {pts}, {qv(obs['G'])})")
 
 
